@@ -1182,6 +1182,12 @@ class FileBuilder:
             self._dirs_to_make(os.path.dirname(filename), created_files)
         except OSError:
             return False
+        if (operation.raised and
+                self._simple_operation_executor.exists(
+                    filename, created_files)):
+            # _build_file would remove the file before calling the function, or
+            # it would raise an IsADirectoryError
+            return False
 
         created_files.started_building_file(filename)
 
